@@ -63,7 +63,7 @@ CLAIMS = {
                 "exponax/_utils.py: lax.scan as a fold): entry i of rollout is the (i+1)-fold application (shifted with the "
                 "initial state prepended), repeat = last entry = f^n, step counts add, aux inputs are consumed in order / held "
                 "constant, windows = every contiguous slice in order with rejection iff too long, RepeatedStepper = n inner "
-                "steps with dt*n. Variable aux with include_init (entry 0 the initial state, entry i+1 after consuming aux 0..i) and the regenerated aux rollout (wrong-length aux rejected). RepeatedStepper against the physical loop (Properties/C14_physical.lean, general D, N, between the model transforms): a half spectrum is realisable iff it is the spectrum of a real state iff rfftn(irfftn .) fixes it; if the Fourier step preserves realisable spectra, irfftn(step^n(rfftn u)) = (irfftn.step.rfftn)^n(u) for every n; linear steps qualify iff the symbol is Hermitian on the self-conjugate columns (every g(-k)=conj g(k) on odd grids, even-order symbols on every grid), ETD-type steps with a real nonlinearity too; counterexample at the Nyquist bin of an even grid. Correspondence: exact integer bookkeeping steppers for every (n, flags), pytree leaves, "
+                "steps with dt*n. Variable aux with include_init (entry 0 the initial state, entry i+1 after consuming aux 0..i) and the regenerated aux rollout (wrong-length aux rejected). RepeatedStepper against the physical loop (Properties/C14_physical.lean, general D, N, between the model transforms): a half spectrum is realisable iff it is the spectrum of a real state iff rfftn(irfftn .) fixes it; if the Fourier step preserves realisable spectra, irfftn(step^n(rfftn u)) = (irfftn.step.rfftn)^n(u) for every n; linear steps qualify iff the symbol is Hermitian on the self-conjugate columns (every g(-k)=conj g(k) on odd grids, even-order symbols on every grid), ETD-type steps with a real nonlinearity too — instantiated on every REGENERATED ETDRK-p step (p=0..4) with the regenerated exp/half-step/contour coefficients of a Hermitian symbol and a pseudo-spectral term: the repeated stepper is the physical loop for every order, n and real state; counterexample at the Nyquist bin of an even grid. Correspondence: exact integer bookkeeping steppers for every (n, flags), pytree leaves, "
                 "every (T, window) pair; RepeatedStepper numerically vs n model steps.",
         "technique": "Lean 4 proof (induction over fold model) + exact model/implementation correspondence",
         "design_ref": "DESIGN.md §5 C14",
